@@ -276,9 +276,8 @@ def _gen_sq_init(w, rng):
     if s is None:
         return None
     t = w.pool[s].tag
-    Lmax = float(w.pool[s].value.snapshots[0].boxlength.max())
-    numofq = rng.choice([3, 4, 5] if t["ndim"] == 3 else [3, 4, 6])
-    args = {"snapshots": ref(s), "qrange": round((numofq + 0.5) * np.pi / Lmax, 6), "onlypositive": rng.random() < 0.3}
+    args = {"snapshots": ref(s), "qrange": rng.choice([2.0, 2.5, 3.0] if t["ndim"] == 3 else [2.0, 3.0, 4.0]),
+            "onlypositive": rng.random() < 0.3}
     if rng.random() < 0.4:
         args["qvector"] = ref(comp(w, s, ".qvec"))
     out = outpath(w, rng, "csv")
